@@ -41,8 +41,10 @@ class World:
     `one` / `zero`: the arithmetic's 1 and 0.
     """
 
-    def __init__(self, nrows: int, numeric: dict[str, list], categorical: dict[str, tuple[list, list]], one: Any = 1.0, zero: Any = 0.0):
+    def __init__(self, nrows: int, numeric: dict[str, list], categorical: dict[str, tuple[list, list]], one: Any = 1.0, zero: Any = 0.0, coded: Optional[dict] = None):
         self.nrows, self.numeric, self.categorical, self.one, self.zero = nrows, numeric, categorical, one, zero
+        # contrast-coded factors: name -> {column suffix (e.g. 'S.x'): {level: coding value}} (closed-form codings, oracle/contrasts_ref.py)
+        self.coded = coded or {}
 
     def piece(self, piece: str) -> list:
         if piece in self.numeric:
@@ -51,6 +53,11 @@ class World:
         if not m or m.group("level") is None:
             raise KeyError(f"cannot interpret label piece {piece!r}")
         name, level = m.group("name"), m.group("level")
+        suffix = (m.group("t") or "") + level
+        if name in self.coded and suffix in self.coded[name]:
+            table = self.coded[name][suffix]
+            _, rows = self.categorical[name]
+            return [(self.one * table[str(r)]) if r is not None else self.zero for r in rows]
         if name in self.categorical:
             levels, rows = self.categorical[name]
             if level not in [str(l) for l in levels]:
